@@ -38,10 +38,12 @@ pub fn hits() -> u64 { HITS.try_with(|h| h.get()).unwrap_or(0) }
 
 #[no_mangle]
 pub unsafe extern "C" fn read(fd: libc::c_int, buf: *mut libc::c_void, count: libc::size_t) -> libc::ssize_t {
+  let mut eof_errno = 0;
   if fd >= 0 {
     if let Ok(a) = FAULTS.try_with(|c| c.get()) {
       for s in a.iter() {
         if s.0 == fd {
+          if s.1 < 0 { eof_errno = -s.1; continue; }
           let _ = HITS.try_with(|h| h.set(h.get() + 1));
           *libc::__errno_location() = s.1;
           return -1;
@@ -49,7 +51,27 @@ pub unsafe extern "C" fn read(fd: libc::c_int, buf: *mut libc::c_void, count: li
       }
     }
   }
-  libc::syscall(libc::SYS_read, fd, buf, count) as libc::ssize_t
+  let r = libc::syscall(libc::SYS_read, fd, buf, count) as libc::ssize_t;
+  if r == 0 && count > 0 && eof_errno != 0 {
+    // end of file is something a pipe whose write end was closed produces and a device node never
+    // does: a node that went away answers with an error
+    let _ = HITS.try_with(|h| h.set(h.get() + 1));
+    *libc::__errno_location() = eof_errno;
+    return -1;
+  }
+  r
+}
+
+/// From now on a read(2) of this thread on `fd` that would report end of file (0 bytes: the write
+/// end of the pipe was closed and the queue is empty) fails with `errno` instead. Queued data stays
+/// readable. A later `fail_reads` on the same descriptor takes over.
+pub fn eof_reads_fail(fd: i32, errno: i32) {
+  let _ = FAULTS.try_with(|c| {
+    let mut a = c.get();
+    for s in a.iter_mut() { if s.0 == fd { return; } }
+    for s in a.iter_mut() { if s.0 < 0 { *s = (fd, -errno); c.set(a); return; } }
+    crate::engine::HARNESS_FAULTS.fetch_add(1, std::sync::atomic::Ordering::Relaxed);
+  });
 }
 
 // ------------------------------------------------------------------------------------------
